@@ -397,6 +397,9 @@ def plan(tier, seed, scale):
     n = 16
     for i in range(n):
         cfgs.append({"mode": "hyp", "examples": int((2500 if tier == "quick" else 60000) * scale)})
+    if tier == "thorough":
+        for i in range(8):
+            cfgs.append({"mode": "atheris", "runs": int(400000 * scale), "corpus": i % 2 == 1, "fseed": i + 1})
     return cfgs
 
 
@@ -411,7 +414,60 @@ def _ws_variants(s, ch):
     return G.join(toks, ch)
 
 
+SEED_CORPUS = ["f > x", "f(a) > x", "f(a, !x)", "g > f > x", "f() as r", "f(a) > $v", "K.meth > w", "f(a=3) > x",
+               "f(a~lt(3)) > x", "g(f(x as q), !y)", "f(!x, !!#exit)", "f > x:@A", "f(a~every(3, start=1), !y)"]
+
+
+def atheris_campaign(cfg):
+    """Coverage-guided campaign (tools/fuzz_c18.py) with the same oracle inside the target."""
+    import json
+    import os
+    import shutil
+    import subprocess
+    import tempfile
+    from vlib.core import VERIF
+
+    rec = Recorder()
+    res = rec.result()
+    if not os.path.isdir(os.path.join(VERIF, ".deps", "atheris")):
+        res["notes"] = ["atheris campaign skipped: atheris not installed under /verif/.deps (tools/setup.py)"]
+        return res
+    d = tempfile.mkdtemp(prefix="verif_c18_fuzz_")
+    try:
+        corpus = os.path.join(d, "corpus")
+        os.makedirs(corpus)
+        if cfg["corpus"]:
+            for i, s in enumerate(SEED_CORPUS):
+                with open(os.path.join(corpus, f"s{i}"), "wb") as f:
+                    f.write(b"\x00" + s.encode("latin-1"))
+        out = os.path.join(d, "violation.json")
+        seed = cfg["seed"] * 100 + cfg["fseed"]
+        p = subprocess.run(
+            ["/venv/bin/python", os.path.join(VERIF, "tools", "fuzz_c18.py"), out, f"-runs={cfg['runs']}",
+             f"-seed={seed}", "-max_len=42", f"-artifact_prefix={d}/", corpus],
+            capture_output=True, text=True, timeout=3600, cwd=d)
+        done = [l for l in p.stderr.splitlines() if l.startswith("Done ")]
+        cov = [l for l in p.stderr.splitlines() if " cov: " in l]
+        runs = int(done[-1].split()[1]) if done else (int(cov[-1].split()[0].lstrip("#")) if cov else 0)
+        res["evaluations"] = runs
+        res["counters"] = {"atheris_runs": runs, "atheris_campaigns": 1}
+        res["notes"] = [f"atheris shard seed={seed} corpus={'valid selectors' if cfg['corpus'] else 'empty'}: "
+                        f"{runs} runs; last status: {(cov[-1].strip()[:120] if cov else 'n/a')}"]
+        if os.path.exists(out):
+            v = json.load(open(out))
+            res["violations"] = [{"property": PROPERTY, "clause": v["clause"], "detail": v["detail"][:2000],
+                                  "payload": {"string": v["string"], "kw": {"only_plain": True}},
+                                  "bucket": v.get("bucket") or v["clause"]}]
+        elif p.returncode != 0 and not done:
+            res["harness_errors"] = ["atheris campaign failed:\n" + p.stderr[-1500:]]
+    finally:
+        shutil.rmtree(d, ignore_errors=True)
+    return res
+
+
 def shard(cfg):
+    if cfg["mode"] == "atheris":
+        return atheris_campaign(cfg)
     rec = Recorder()
     viol = {}
 
